@@ -246,6 +246,10 @@ def gen_cases(r):
         ctx = pick_ctx(r)
         add(wrap(r, ctx, ["%s(nope): %d" % (kind, w)] + fill((8 - w % 8) % 8) + ["x: 8[]"], extra=base),
             code_undecl, "undeclared-target%s|%s" % (kind, ctx))
+        ctx = pick_ctx(r)
+        elsewhere = r.choice(["packet V2_O { nope: 8[] }", "struct V2_O { nope: V7[] }", "group V2_O { nope: 8[] }"])
+        add(wrap(r, ctx, ["%s(nope): %d" % (kind, w)] + fill((8 - w % 8) % 8) + ["x: 8[]"], extra=base + [elsewhere]),
+            code_undecl, "target-declared-elsewhere%s|%s" % (kind, ctx))
         for bad in ("x: 8", "x: V7", "x: V8"):
             ctx = pick_ctx(r)
             flds = ["%s(x): %d" % (kind, w)] + fill((8 - w % 8) % 8) + [bad]
@@ -337,6 +341,19 @@ def gen_cases(r):
     add(wrap(r, ctx, flds, post_ok=("_payload_" not in t)), "E45", "if-on-%s|%s" % (t.split(" ")[0].split("(")[0].rstrip(":"), ctx))
     ctx = pick_ctx(r)
     add(wrap(r, ctx, ["x: 8 if nope = 1"]), "E46", "condition-id-missing|" + ctx)
+    # "undeclared" also means: declared, as a perfectly good flag, in *another* declaration - a sibling
+    # written before or after, the parent, or a group that is not used here
+    for where in ("sibling-before", "sibling-after", "parent", "unused-group"):
+        flag_decl = {"sibling-before": "packet V1_O { nope: 1, _reserved_: 7 }",
+                     "sibling-after": "packet V1_O { nope: 1, _reserved_: 7 }",
+                     "unused-group": "group V1_O { nope: 1, _reserved_: 7 }"}.get(where)
+        if where == "parent":
+            case = ["packet V1_P { nope: 1, _reserved_: 7, _payload_ }", "packet V1 : V1_P { x: 8 if nope = 1 }"]
+        elif where == "sibling-before":
+            case = [flag_decl] + wrap(r, pick_ctx(r), ["x: 8 if nope = 1"])
+        else:
+            case = wrap(r, pick_ctx(r), ["x: 8 if nope = 1"]) + [flag_decl]
+        add(case, "E46", "condition-id-declared-elsewhere:" + where)
     ctx = pick_ctx(r)
     add(wrap(r, ctx, ["x: 8 if c = 1", "c: 1", "_reserved_: 7"]), "E46", "condition-id-declared-later|" + ctx)
     for cdecl, lab in (("c: 2, _reserved_: 6", "2-bit"), ("c: V8", "typedef"), ("c: 8[1]", "array"), ("c: 8", "8-bit")):
